@@ -296,6 +296,8 @@ func RunTransfer(env *Env, progs []SessProg, opts TransferOpts) *RunResult {
 			sideWait := opts.MaxWall
 			if d := opts.Abandon[i]; d > 0 {
 				sideWait = d + 3*time.Second // it may be gone before the server application ever saw it
+			} else if len(opts.Abandon) > 0 && sideWait > 15*time.Second {
+				sideWait = 15 * time.Second // a sibling that has not appeared by then will not (see C01)
 			}
 			// a client whose very first write failed will never appear at the
 			// server: do not wait the whole wall budget for it
